@@ -310,6 +310,11 @@ def write_evidence(pid, spec, tier, seed, vc, sym, rtc, real, known_hit, undecid
         cov.setdefault('evaluations', obligations)
         cov.setdefault('distinct_nontrivial', discharged)
         cov.setdefault('rule', 'one case per obligation')
+    # obligations refuted by a listed known finding are reported apart: they are not part of the proof claim
+    n_known = sum(1 for k, v in known_hit if v['key'].startswith(('sym:', 'vc:')))
+    if n_known and 'obligations' in cov:
+        cov['obligations'] -= n_known
+        cov['refuted_by_known_findings'] = n_known
     cov['undecided'] = undecided[:50]
     cov['checker_errors'] = [e[:500] for e in errors[:10]]
     cov['known_findings_hit'] = sorted({k['id'] for k, _ in known_hit})
